@@ -230,6 +230,7 @@ func operandPool(rn *Runner, d *Doc, g *ExprGen) []Expr {
 		&EPath{Abs: true},
 		v("n"), v("s"),
 		v("u"), v("w"), // caller-supplied node-sets: arbitrary order, reverse document order
+		v("e"), // a caller-supplied EMPTY node-set (nil or empty slice)
 	}
 	for i := 0; i < 6; i++ {
 		ops = append(ops, g.NodeSet(1, 3))
@@ -269,7 +270,7 @@ func famC05(rn *Runner) {
 			}
 		}
 		g := NewExprGen(rn.R.Fork(), d, env) // before $u and $w are bound: the random operands do not filter them in predicates
-		env.Vars = append(env.Vars, VarBind{"", "u", VarVal{Kind: "nodes", Nodes: us}}, VarBind{"", "w", VarVal{Kind: "nodes", Nodes: ws}})
+		env.Vars = append(env.Vars, VarBind{"", "u", VarVal{Kind: "nodes", Nodes: us}}, VarBind{"", "w", VarVal{Kind: "nodes", Nodes: ws}}, VarBind{"", "e", VarVal{Kind: "nodes"}})
 		env.Vars = append(env.Vars, numVar("n", g.Double()), strVar("s", pick(rn.R, numberStrings)))
 		pool := operandPool(rn, d, g)
 		if di == 0 {
